@@ -73,6 +73,18 @@ def empty_of(t):
     return {"opt": None, "list": [], "dict": {}, "tup": ()}[t[0]]
 
 
+def default_src(t, kind):
+    """source text of a default of type t, as an attrs.field / dataclasses.field argument list or a plain NamedTuple default"""
+    k = t[0]
+    lit = {"int": "0", "str": "''", "float": "0.5", "bool": "False", "enum": "E.A", "any": "None", "opt": "None", "tup": "()"}.get(k)
+    if kind == "nt":
+        return lit if lit is not None else {"list": "()", "dict": "None"}[k]      # (immutable stand-ins: never used, values are always passed)
+    if lit is not None:
+        return f"default={lit}"
+    fac = {"list": "list", "dict": "dict"}[k]
+    return (f"factory={fac}" if kind == "attrs" else f"default_factory={fac}")
+
+
 def gen_family(rng):
     """k classes G0..G(k-1).  Class i links to class i+1 (mod k); classes are DEFINED in the order G(k-1) .. G0, so the
     only forward reference of the cycle is the one from G(k-1) to G0 (G(k-1) is an attrs class or a dataclass; whether
@@ -88,7 +100,7 @@ def gen_family(rng):
         fields = []
         nplain = rng.randint(0, 2)
         for j in range(nplain):
-            fields.append([f"p{j}", rng.choice(PLAIN), False, False])
+            fields.append([f"p{j}", rng.choice(PLAIN), rng.random() < 0.4, False])
         wrap = rng.choice(WRAPS)
         if i == 0 and k >= 2 and rng.random() < 0.25:
             # a direct reference: the cycle is still cut by the wrapped link of the next class
@@ -130,22 +142,18 @@ def source(classes):
             if c["kind"] == "attrs":
                 args = []
                 if dflt:
-                    d = empty_of(t) if has_ref(t) else None
-                    args.append({"None": "default=None", "[]": "factory=list", "{}": "factory=dict", "()": "default=()"}[repr(d)])
+                    args.append(default_src(t, "attrs"))
                 if conv:
                     args.append("converter=ident")
                 body.append(f"    {name}: {a_s}" + (f" = attrs.field({', '.join(args)})" if args else ""))
             elif c["kind"] == "dataclass":
                 if dflt:
-                    d = empty_of(t) if has_ref(t) else None
-                    dd = {"None": "default=None", "[]": "default_factory=list", "{}": "default_factory=dict", "()": "default=()"}[repr(d)]
-                    body.append(f"    {name}: {a_s} = dataclasses.field({dd})")
+                    body.append(f"    {name}: {a_s} = dataclasses.field({default_src(t, 'dataclass')})")
                 else:
                     body.append(f"    {name}: {a_s}")
             elif c["kind"] == "nt":
                 if dflt:
-                    d = empty_of(t) if has_ref(t) else None
-                    body.append(f"    {name}: {a_s} = {d!r}")
+                    body.append(f"    {name}: {a_s} = {default_src(t, 'nt')}")
                 else:
                     body.append(f"    {name}: {a_s}")
             else:
@@ -381,6 +389,25 @@ def key_deletions(o, limit=12):
     return out
 
 
+def leaf_corruptions(o, limit=6):
+    """every payload obtained by replacing ONE enum-valued leaf ('a' / 'b') by a value no member has"""
+    out = []
+
+    def walk(x, rebuild):
+        if len(out) >= limit:
+            return
+        if type(x) is str and x in ("a", "b"):
+            out.append(rebuild("zz"))
+        elif type(x) is dict:
+            for k in x:
+                walk(x[k], (lambda v, x=x, k=k, rebuild=rebuild: rebuild({**x, k: v})))
+        elif type(x) in (list, tuple):
+            for j in range(len(x)):
+                walk(x[j], (lambda v, x=x, j=j, rebuild=rebuild: rebuild(type(x)(list(x[:j]) + [v] + list(x[j + 1:])))))
+    walk(o, lambda v: v)
+    return out
+
+
 def run(f, *a):
     try:
         return ("ok", f(*a))
@@ -414,13 +441,21 @@ def cycle_battery(v: Verdict, prop: str, n_families: int):
         kw = {"unstruct_strat": UnstructureStrategy.AS_TUPLE if strat_tuple else UnstructureStrategy.AS_DICT, "prefer_attrib_converters": pac}
         convs = {}
 
+        # half of the families: the enum is structured by a user hook that looks the member up in a table (KeyError on bad data,
+        # where the born-with hook raises ValueError) -- registered on every converter of the family
+        table_hook = rng.random() < 0.5
+        by_value = {m.value: m for m in fam.E}
+
         def conv(full, dv):
             if (full, dv) not in convs:
                 convs[(full, dv)] = (Converter if full else BaseConverter)(detailed_validation=dv, **kw)
+                if table_hook:
+                    convs[(full, dv)].register_structure_hook(fam.E, lambda val, _t: by_value[val])
             return convs[(full, dv)]
         order = list(range(len(fam.classes)))
         rng.shuffle(order)
-        desc = {"family_source": fam.src, "strategy": strat, "prefer_attrib_converters": pac, "order": order}
+        desc = {"family_source": fam.src, "strategy": strat, "prefer_attrib_converters": pac, "order": order,
+                "enum_hook": "user hook: table lookup (KeyError on bad data)" if table_hook else "born-with"}
         try:
             for i in order:
                 t = ("ref", i)
@@ -461,7 +496,7 @@ def cycle_battery(v: Verdict, prop: str, n_families: int):
                             v.violation("Converter and BaseConverter unstructure the same value differently (mutually recursive classes)",
                                         dict(desc, **case, converter=repr(u), base_converter=repr(ub[1]), battery="CYCLE"))
                     # corrupted payloads
-                    payloads = [u] + [mutate(rng, u) for _ in range(3)] + (key_deletions(u) if prop in ("C02", "C04", "C06") else [])
+                    payloads = [u] + [mutate(rng, u) for _ in range(3)] + (key_deletions(u) + leaf_corruptions(u) if prop in ("C02", "C04", "C06") else [])
                     for o in payloads:
                         hist["structure_mutated"] += 1
                         r1 = run(c1.structure, copy.deepcopy(o), T)
@@ -548,3 +583,189 @@ def shaped(fam, t, o, strat):
     if strat == "dict":
         return type(o) is dict and all(type(kk) is str for kk in o) and all(name not in o or shaped(fam, ft, o[name], strat) for name, ft, _d, _c in c["fields"])
     return type(o) in (list, tuple) and all(shaped(fam, f[1], e, strat) for f, e in zip(c["fields"], o))
+
+
+# ------------------------------------------------------------------------------------ GENERIC battery
+
+GEN_SRC = '''import enum, dataclasses, attrs
+from typing import Any, Dict, Generic, List, Optional, Tuple, TypeVar
+T = TypeVar("T")
+U = TypeVar("U")
+class E(enum.Enum):
+    A = 'a'
+    B = 'b'
+def ident(v):
+    return v
+@attrs.define
+class Inner:
+    a: int
+    b: str = "x"
+@dataclasses.dataclass
+class DInner:
+    n: int
+'''
+
+
+def gen_generic_family(rng):
+    """one generic base (attrs or dataclass) over T with 1-4 TypeVar-typed attributes, some with attrs field converters
+    (`field(converter=list)` is the common idiom), a non-parametrised subclass of a parametrised base, and a grand-child"""
+    kind = rng.choice(["attrs", "attrs", "dataclass"])
+    shapes = rng.sample(["T", "List[T]", "Dict[str, T]", "Optional[T]", "Tuple[T, ...]"], rng.randint(1, 4))
+    body, fields = [], []
+    body.append("    label: str")
+    for j, sh in enumerate(sorted(shapes, key=lambda s: s == "T", reverse=True)):
+        name = f"g{j}"
+        dflt = {"T": None, "List[T]": "list", "Dict[str, T]": "dict", "Optional[T]": "None", "Tuple[T, ...]": "()"}[sh]
+        conv = kind == "attrs" and rng.random() < 0.45
+        cname = {"List[T]": "list", "Dict[str, T]": "dict", "Tuple[T, ...]": "tuple"}.get(sh, "ident")
+        if kind == "attrs":
+            args = []
+            if dflt in ("list", "dict"):
+                args.append(f"factory={dflt}")
+            elif dflt is not None:
+                args.append(f"default={dflt}")
+            if conv:
+                args.append(f"converter={cname}")
+            body.append(f"    {name}: {sh}" + (f" = attrs.field({', '.join(args)})" if args else ""))
+        else:
+            if dflt in ("list", "dict"):
+                body.append(f"    {name}: {sh} = dataclasses.field(default_factory={dflt})")
+            elif dflt is not None:
+                body.append(f"    {name}: {sh} = {dflt}")
+            else:
+                body.append(f"    {name}: {sh}")
+        fields.append((name, sh, conv))
+    deco = "@attrs.define" if kind == "attrs" else "@dataclasses.dataclass"
+    arg = rng.choice(["int", "Inner", "E", "DInner", "str"])
+    src = GEN_SRC + f"{deco}\nclass Box(Generic[T]):\n" + "\n".join(body) + "\n"
+    src += f"{deco}\nclass Sub(Box[{arg}]):\n    extra: int = 0\n"
+    src += f"{deco}\nclass Leaf(Sub):\n    more: str = 'm'\n"
+    return {"kind": kind, "fields": fields, "sub_arg": arg, "src": src}
+
+
+def generic_battery(v: Verdict, prop: str, n_families: int):
+    """generic attrs classes and dataclasses (documented as supported by Converter's generated hooks): Box[A] for several A,
+    a non-parametrised subclass of Box[A] and its child; values built from the SUBSTITUTED annotations; C01 / C02 / C03 / C04."""
+    from cattrs import Converter
+    rng = random.Random(v.seed * 15485863 + sum(map(ord, prop)) + 5)
+    props = {"C17": {"C01", "C03"}}.get(prop, {prop})      # C17 (TypeVars monomorphised): round trip and encoding by the substituted types
+    hist = {"families": 0, "with_field_converter": 0, "dataclass": 0, "round_trips": 0, "types": {}}
+    for fi in range(n_families):
+        fam = gen_generic_family(rng)
+        modname = f"verif_gen_{next(_counter)}"
+        mod = types.ModuleType(modname)
+        sys.modules[modname] = mod
+        try:
+            exec(compile(fam["src"], modname, "exec"), mod.__dict__)
+            hist["families"] += 1
+            hist["with_field_converter"] += any(f[2] for f in fam["fields"])
+            hist["dataclass"] += fam["kind"] == "dataclass"
+            args = {"int": int, "str": str, "Inner": mod.Inner, "E": mod.E, "DInner": mod.DInner}
+
+            def val_of(aname, depth=1):
+                if aname == "int":
+                    return rng.choice([0, 3, -7])
+                if aname == "str":
+                    return rng.choice(["", "s", "tt"])
+                if aname == "E":
+                    return rng.choice(list(mod.E))
+                if aname == "Inner":
+                    return mod.Inner(rng.choice([1, 2]), rng.choice(["x", "y"]))
+                return mod.DInner(rng.choice([5, 6]))
+
+            def enc_of(aname, x):
+                if aname in ("int", "str"):
+                    return x
+                if aname == "E":
+                    return x.value
+                if aname == "Inner":
+                    return {"a": x.a, "b": x.b}
+                return {"n": x.n}
+
+            def field_val(sh, aname):
+                n = rng.randint(0, 2)
+                if sh == "T":
+                    return val_of(aname)
+                if sh == "List[T]":
+                    return [val_of(aname) for _ in range(n)]
+                if sh == "Dict[str, T]":
+                    return {f"k{j}": val_of(aname) for j in range(n)}
+                if sh == "Optional[T]":
+                    return None if n == 0 else val_of(aname)
+                return tuple(val_of(aname) for _ in range(n))
+
+            def field_enc(sh, aname, x):
+                if sh == "T":
+                    return enc_of(aname, x)
+                if sh in ("List[T]", "Tuple[T, ...]"):
+                    return [enc_of(aname, e) for e in x]
+                if sh == "Dict[str, T]":
+                    return {k: enc_of(aname, e) for k, e in x.items()}
+                return None if x is None else enc_of(aname, x)
+
+            def conforms_field(sh, aname, x):
+                cl = args[aname]
+                ok1 = lambda e: type(e) is cl
+                if sh == "T":
+                    return ok1(x)
+                if sh == "List[T]":
+                    return type(x) is list and all(ok1(e) for e in x)
+                if sh == "Tuple[T, ...]":
+                    return type(x) is tuple and all(ok1(e) for e in x)
+                if sh == "Dict[str, T]":
+                    return type(x) is dict and all(type(k) is str and ok1(e) for k, e in x.items())
+                return x is None or ok1(x)
+
+            targets = [("Box", a) for a in rng.sample(sorted(args), 2)] + [("Sub", fam["sub_arg"]), ("Leaf", fam["sub_arg"])]
+            convs = {dv: Converter(detailed_validation=dv) for dv in (True, False)}
+            rng.shuffle(targets)
+            for cname, aname in targets:
+                cl = getattr(mod, cname)
+                T = cl[args[aname]] if cname == "Box" else cl
+                hist["types"][cname] = hist["types"].get(cname, 0) + 1
+                kw = {"label": rng.choice(["l", "m"])}
+                for name, sh, _c in fam["fields"]:
+                    kw[name] = field_val(sh, aname)
+                if cname in ("Sub", "Leaf"):
+                    kw["extra"] = rng.choice([0, 4])
+                if cname == "Leaf":
+                    kw["more"] = rng.choice(["m", "n"])
+                x = cl(**kw)
+                exp = {"label": kw["label"]}
+                for name, sh, _c in fam["fields"]:
+                    exp[name] = field_enc(sh, aname, kw[name])
+                for extra in ("extra", "more"):
+                    if extra in kw:
+                        exp[extra] = kw[extra]
+                dv = rng.random() < 0.5
+                desc = {"battery": "GENERIC", "family_source": fam["src"], "type": repr(T), "value": repr(x), "detailed_validation": dv}
+                v.count(repr((fam["src"], repr(T), repr(x), dv)), True)
+                ures = run(convs[dv].unstructure, x, T)
+                if ures[0] != "ok":
+                    if props & {"C01", "C03"}:
+                        v.violation("unstructure raised on a value of a generic class", dict(desc, unstructure=ures[1]))
+                    continue
+                u = ures[1]
+                if "C03" in props and not (primitive_only(u) and deep_same(u, exp)):
+                    v.violation("unstructured output of a generic class differs from the documented encoding (TypeVars substituted)",
+                                dict(desc, unstructured=repr(u), expected=repr(exp)))
+                payloads = [u] + [mutate(rng, u) for _ in range(2)] + key_deletions(u, 6)
+                for pi, o in enumerate(payloads):
+                    r1 = run(convs[dv].structure, copy.deepcopy(o), T)
+                    hist["round_trips"] += pi == 0
+                    if "C01" in props and pi == 0 and not (r1[0] == "ok" and deep_same(r1[1], x)):
+                        v.violation("round trip of a generic class does not give back the value", dict(desc, unstructured=repr(u), structured=repr(r1[1])))
+                    if "C02" in props and r1[0] == "ok":
+                        r = r1[1]
+                        bad = type(r) is not cl or any(not conforms_field(sh, aname, getattr(r, name)) for name, sh, _c in fam["fields"])
+                        if bad:
+                            v.violation("structure returned an instance of a generic class whose attributes are not of the substituted types",
+                                        dict(desc, payload=repr(o), structured=repr(r)))
+                    if "C04" in props:
+                        r2 = run(convs[not dv].structure, copy.deepcopy(o), T)
+                        if not same_outcome(r1, r2):
+                            v.violation("detailed_validation changes acceptance or the result (generic class)",
+                                        dict(desc, payload=repr(o), this_mode=repr(r1), other_mode=repr(r2)))
+        finally:
+            sys.modules.pop(modname, None)
+    v.coverage["generic_battery"] = hist
